@@ -264,15 +264,55 @@ class Judge:
     return clean
 
 
+# ---------------------------------------------------------------------------
+# running jobs: a worker process that dies from a signal is data, not a machinery error
+# ---------------------------------------------------------------------------
+def _crash_result(signum):
+  return {"outcome": "internal", "phase": "crash", "step": None, "layout": None, "clauses": [], "nupd": 0,
+          "secs": {}, "error": {"type": "WorkerCrash", "msg": f"the process running this case died with "
+                                f"signal {signum} (segmentation fault / abort inside jaxlib)",
+                                "where": "", "repo_frame": "", "tb": ""}}
+
+
+def _run_chunk(jobs, x64, wdir):
+  """Run jobs in ONE worker process; if it dies from SIGSEGV/SIGABRT bisect to find the culprit."""
+  try:
+    return core.run_workers(WORKER, jobs, x64=x64, devices=DEVICES, nproc=1, chunk=len(jobs), work=wdir)
+  except core.MachineryError as e:
+    m = re.search(r"rc=(-?\d+)", str(e))
+    rc = int(m.group(1)) if m else 0
+    if rc not in (-11, -6, 139, 134):
+      raise
+    if len(jobs) == 1:
+      return [_crash_result(-rc if rc < 0 else rc - 128)]
+    h = len(jobs) // 2
+    return _run_chunk(jobs[:h], x64, wdir) + _run_chunk(jobs[h:], x64, wdir)
+
+
+def run_jobs(ck, jobs, x64=False):
+  from concurrent.futures import ThreadPoolExecutor
+  if not jobs:
+    return []
+  n = core.NCPU
+  size = max(1, min(24, (len(jobs) + n - 1) // n))
+  chunks = [jobs[i:i + size] for i in range(0, len(jobs), size)]
+  ck._c07_runs = getattr(ck, "_c07_runs", 0) + 1
+  def one(args):
+    i, ch = args
+    wdir = ck.work / f"w{ck._c07_runs}_{i}"      # private directory: run_workers' file names
+    return _run_chunk(ch, x64, wdir)             # are only unique per process and millisecond
+  with ThreadPoolExecutor(max_workers=n) as ex:
+    parts = list(ex.map(one, enumerate(chunks)))
+  return [r for p in parts for r in p]
+
+
 def replay(ck, cases, label, x64=False):
   jobs = [job_of(c, ck.seed * 100000 + i) for i, c in enumerate(cases)]
   # interleave cheap and expensive jobs over the workers
   order = list(range(len(jobs)))
   rs = np.random.RandomState(ck.seed + 7)
   rs.shuffle(order)
-  chunk = max(1, min(24, (len(jobs) + core.NCPU - 1) // core.NCPU))
-  res_shuffled = core.run_workers(WORKER, [jobs[i] for i in order], x64=x64, devices=DEVICES,
-                                  chunk=chunk, work=ck.work)
+  res_shuffled = run_jobs(ck, [jobs[i] for i in order], x64=x64)
   res = [None] * len(jobs)
   for k, i in enumerate(order):
     res[i] = res_shuffled[k]
@@ -343,6 +383,11 @@ def run(ck):
   r_bad["clauses"] = [{"clause": "state_layout_changed", "path": ".x", "detail": "injected"}]
   Judge(sub, "selftest").judge(c0, jb0, r_bad)
   ck.selftest("R: a layout change after an update is a violation", len(sub.violations) > 0)
+  sub = core.Check(ck.pid, ck.level, ck.tier, ck.seed); sub.work = ck.work
+  crash_job = dict(jb0, selftest_crash=True)
+  Judge(sub, "selftest").judge(c0, crash_job, run_jobs(ck, [crash_job])[0])
+  ck.selftest("R: a case that kills its worker process is a violation, not a machinery error",
+              len(sub.violations) > 0)
 
   # ---- V ---------------------------------------------------------------------------
   if "V" in legs:
@@ -526,7 +571,7 @@ def schema_violation(x, path=""):
 def trace_of(case, res):
   none = {"ty": "none"}
   ev = []
-  if res["phase"] == "construct":
+  if res["phase"] in ("construct", "crash"):
     return [{"a": "Construct", "out": res["outcome"]}]
   ev.append({"a": "Construct", "out": "ok"})
   if res["phase"] in ("init", "sharded_fns"):
@@ -596,8 +641,7 @@ def validate_random(ck):
   for c in cases:
     c["zero_len_metrics"] = zero_len_metrics(c)
   jobs = [job_of(c, ck.seed * 100000 + 50000 + i) for i, c in enumerate(cases)]
-  chunk = max(1, min(24, (len(jobs) + core.NCPU - 1) // core.NCPU))
-  results = core.run_workers(WORKER, jobs, devices=DEVICES, chunk=chunk, work=ck.work)
+  results = run_jobs(ck, jobs)
   st, traces, verdicts = judge_traces(ck, cases, jobs, results, "random case")
   merge_stats(ck, "traces", st)
   if st["accepted"] < n // 8:
@@ -644,16 +688,39 @@ def _all_stats_1x1(layout):
   return bool(found) and all(s == [1, 1] for s in found)
 
 
-def _corrupt_first_leaf(x):
+def _corrupt_first_leaf(x, dtype_too=True):
+  """Corrupt one leaf of a layout: the first leaf of rank >= 1 gets a wrong first dimension; if
+  there is none, the first leaf gets a wrong dtype."""
+  if _corrupt_shape(x):
+    return True
+  return dtype_too and _corrupt_dtype(x)
+
+
+def _corrupt_shape(x):
   if isinstance(x, dict):
     if "s" in x and "d" in x and isinstance(x["s"], list) and len(x["s"]) >= 1:
       x["s"] = list(x["s"]); x["s"][0] += 1
       return True
     for k in sorted(x):
-      if _corrupt_first_leaf(x[k]):
+      if _corrupt_shape(x[k]):
         return True
   if isinstance(x, list):
     for v in x:
-      if _corrupt_first_leaf(v):
+      if _corrupt_shape(v):
+        return True
+  return False
+
+
+def _corrupt_dtype(x):
+  if isinstance(x, dict):
+    if "s" in x and "d" in x:
+      x["d"] = "float16"
+      return True
+    for k in sorted(x):
+      if _corrupt_dtype(x[k]):
+        return True
+  if isinstance(x, list):
+    for v in x:
+      if _corrupt_dtype(v):
         return True
   return False
